@@ -35,6 +35,9 @@ class C11(Check):
             "over the message with its original counts), verifies, strips back to the original message and counts, re-parses into the "
             "original sections; every single-bit and carry-shaped alteration of the four counts and every shift of a section boundary "
             "fails; the same messages as requests, replies and envelopes through Transfer, Conn, Client and Server (with all tamperings). "
+            "Server sessions answer every request whose TSIG fails as RFC 8945 5.3.2 says (NOTAUTH + TSIG with BADTIME / BADSIG / "
+            "BADKEY): the signed BADTIME reply to a request with a right MAC and a time outside the fudge window must be the RFC MAC "
+            "over the MAC of ITS request (UDP, first and later request of a TCP connection), and the requests after it are served as before. "
             "Model cases: name decoder, stripTsig, tsigBuffer, digest, verify, generate, "
             "chain on boundary-directed hand-made octets (both sides of every bounds check) and on sampled alterations; chain and verify "
             "cases whose implementation verdict is the one Transfer.In / Transfer.ReadMsg / Conn.ReadMsg / TsigStatus reported. A case is "
